@@ -210,7 +210,22 @@ pub fn judge_text(w: &World, entries: &[&Entry], text: &str, origin_changed: boo
         }
         // name the component that differs in the closest loaded record
         let mut best = "several";
+        // a loaded record with the same owner, type and RDATA: only TTL and/or class are off
+        if let Some(g) = got.iter().find(|g| {
+            let s = same_record(g, x);
+            s[0] && s[3]
+        }) {
+            let s = same_record(g, x);
+            best = match (s[1], s[2]) {
+                (false, true) => "ttl",
+                (true, false) => "class",
+                _ => "ttl+class",
+            };
+        }
         for g in &got {
+            if best != "several" {
+                break;
+            }
             let s = same_record(g, x);
             if s.iter().filter(|b| !**b).count() == 1 {
                 best = if !s[0] {
@@ -634,6 +649,7 @@ impl<'a> Enum<'a> {
 pub fn replay(w: &World, case: &Value, l: &mut Local) {
     let alpha: Vec<Entry> = match case["alphabet"].as_str().unwrap_or("") {
         "singles" => crate::alphabet::singles(),
+        "chain" => crate::alphabet::chain_alphabet(),
         _ => crate::alphabet::sub_alphabet(6, 6),
     };
     let idx: Vec<usize> = case["records"].as_array().map(|a| a.iter().map(|x| x.as_u64().unwrap() as usize).collect()).unwrap_or_default();
